@@ -32,6 +32,7 @@ ASSUMPTIONS = [
     'dt and waits are multiples of 1/8 (exact in binary floating point)',
 ]
 FINDINGS = {}
+FUZZ_RUNS = 30000      # thorough tier: coverage-guided stage (vlib/fuzz.py), when atheris is installed
 T, A, P = CoroutineState.TERMINATED, CoroutineState.ACTIVE, CoroutineState.PAUSED
 YIELDS = [None, 0, -1, 1, 1, 2, 0.5, 4]       # 1 twice: equal deadlines of several coroutines are frequent
 DTS = [0, 0.5, 0.5, 1, 0.125, 0.25, 2, 0.5]
